@@ -331,11 +331,157 @@ fn blocking_scenario(h: &mut Harness) -> Result<Vec<(String, Value)>, String> {
     Ok(devs)
 }
 
+/// The whole dispatch table, one command at a time, on a connection that selected database d while every other database
+/// holds something else under the same names. Run A: d is the target. Run B: the mirror image with database 0 as the
+/// target. Required: the reply of A equals that of B; in A no database other than d differs from before the command
+/// (complete raw dump of each of the 16 databases); and d afterwards looks exactly as 0 does in B. A command that reads
+/// or writes a fixed database instead of the selected one deviates in one of the three (a seeded XGROUP CREATE ...
+/// MKSTREAM stored the new stream in database 0).
+fn table_skip(name: &str) -> bool {
+    matches!(name, "SHUTDOWN" | "QUIT" | "SYNC" | "PSYNC" | "MONITOR" | "SUBSCRIBE" | "UNSUBSCRIBE" | "PSUBSCRIBE" | "PUNSUBSCRIBE" | "RANDOMKEY" | "SRANDMEMBER" | "SPOP"
+        | "INFO" | "CLIENT" | "SLOWLOG" | "LASTSAVE" | "MEMORY" | "TIME" | "COMMAND" | "DEBUG" | "SAVE" | "BGSAVE" | "BGREWRITEAOF" | "SLEEP" | "BLPOP" | "BRPOP"
+        | "AUTH" | "REPLICAOF" | "SLAVEOF" | "REPLCONF" | "FLUSHALL" | "SELECT" | "CONFIG")
+}
+
+fn table_cases(thorough: bool) -> Vec<(usize, usize, bool, usize, Vec<String>)> {
+    // (target db, key state, elsewhere holds a string under the names, path, command)
+    let mut out = Vec::new();
+    let states = super::cmdtable::key_states().len();
+    for (name, args) in super::cmdtable::all_commands() {
+        if table_skip(&name) || super::cmdtable::excluded(&name).is_some() {
+            continue;
+        }
+        let mut c = vec![name.clone()];
+        c.extend(args.iter().cloned());
+        for d in if thorough { vec![1usize, 15] } else { vec![1usize] } {
+            for st in 0..states {
+                for elsewhere in [false, true] {
+                    for path in 0..2usize {
+                        if path == 1 && matches!(name.as_str(), "MULTI" | "EXEC" | "DISCARD" | "WATCH" | "UNWATCH" | "EVAL" | "EVALSHA" | "SCRIPT" | "PUBLISH") {
+                            continue;
+                        }
+                        out.push((d, st, elsewhere, path, c.clone()));
+                    }
+                }
+            }
+        }
+    }
+    out
+}
+
+fn table_run(h: &mut Harness, target: usize, st: usize, elsewhere: bool, path: usize, cmdv: &[String]) -> Result<(String, Vec<String>, Vec<String>), String> {
+    h.ensure()?;
+    h.aux_call(&["FLUSHALL"])?;
+    let states = super::cmdtable::key_states();
+    // the other databases that hold something: the two ends, the neighbours of the target, and 0
+    let mut others: Vec<usize> = vec![0, 1, 2, 14, 15, (target + 1) % 16];
+    others.sort();
+    others.dedup();
+    for o in others {
+        if o == target || !elsewhere {
+            continue;
+        }
+        h.aux_call(&["SELECT", &o.to_string()])?;
+        h.aux_call(&["SET", "k", &format!("elsewhere{}", if o > target { o - target } else { 16 + o - target })])?;
+        h.aux_call(&["SET", "k2", "elsewhere2"])?;
+    }
+    h.aux_call(&["SELECT", &target.to_string()])?;
+    for c in states[st].1.iter() {
+        h.aux_call(c)?;
+    }
+    h.aux_call(&["SELECT", "0"])?;
+    let storage = h.srv.as_ref().unwrap().h.storage.clone();
+    let before: Vec<String> = (0..16).map(|i| storage.verif_raw_dump(i, 0)).collect();
+    let reply = {
+        let srv = h.srv.as_ref().unwrap();
+        let mut c = srv.connect().map_err(|e| format!("connect: {:?}", e))?;
+        let sel = srv.call(&mut c, &["SELECT", &target.to_string()]).map_err(|e| format!("SELECT: {:?}", e))?;
+        if sel != R::ok() {
+            return Err(format!("SELECT {} -> {}", target, resp::show(&sel)));
+        }
+        let r = if path == 0 {
+            srv.call(&mut c, cmdv)
+        } else {
+            let mut a: Vec<String> = vec!["EVAL".into(), FORWARD_SCRIPT.into(), "0".into()];
+            a.extend(cmdv.iter().cloned());
+            srv.call(&mut c, &a)
+        };
+        let shown = match r {
+            Ok(r) => super::c02::shown_reply(&cmdv[0], &r),
+            Err(e) => format!("<{:?}>", e),
+        };
+        c.discard();
+        let _ = srv.steps(2);
+        shown
+    };
+    let after: Vec<String> = (0..16).map(|i| storage.verif_raw_dump(i, 0)).collect();
+    Ok((reply, before, after))
+}
+
+fn table_family(h: &mut Harness, a: usize, b: usize, thorough: bool, io: &mut WorkerIo) -> Value {
+    let cases = table_cases(thorough);
+    let states = super::cmdtable::key_states();
+    let mut devs: Vec<Value> = Vec::new();
+    let mut errors: Vec<String> = Vec::new();
+    let mut n = 0u64;
+    for i in a..b.min(cases.len()) {
+        let (d, st, elsewhere, path, cmdv) = &cases[i];
+        if i % 32 == 0 {
+            io.announce_case(json!({"table": i}));
+        }
+        let ra = table_run(h, *d, *st, *elsewhere, *path, cmdv);
+        let rb = table_run(h, 0, *st, *elsewhere, *path, cmdv);
+        match (ra, rb) {
+            (Ok((reply_a, before_a, after_a)), Ok((reply_b, _before_b, after_b))) => {
+                n += 1;
+                let mut problems: Vec<String> = Vec::new();
+                let touched: Vec<usize> = (0..16).filter(|j| *j != *d && before_a[*j] != after_a[*j]).collect();
+                if !touched.is_empty() {
+                    problems.push(format!("changed-database-{}-from-a-connection-in-{}", touched[0], d));
+                }
+                if reply_a != reply_b {
+                    problems.push("reply-differs-from-the-same-command-in-database-0".into());
+                }
+                if after_a[*d] != after_b[0] {
+                    problems.push("selected-database-differs-from-what-database-0-looks-like-after-the-same-command".into());
+                }
+                for p in problems {
+                    devs.push(json!({"sig": format!("C18|TABLE|{}|{}|{}|{}", cmdv[0], ["direct", "EVAL"][*path], states[*st].0, p.split("-from-a").next().unwrap_or(&p)),
+                        "detail": {"i": i, "command": cmdv.join(" "), "selected": d, "key_state": states[*st].0, "other_databases_hold_strings_under_the_names": elsewhere, "path": if *path == 0 { "direct" } else { "EVAL forwarding script" },
+                            "problem": p, "reply": reply_a, "reply_in_database_0": reply_b, "selected_database_after": after_a[*d], "database_0_after_the_same_command": after_b[0]}}));
+                }
+            }
+            (Err(e), _) | (_, Err(e)) => {
+                errors.push(format!("table case {} ({}): {}", i, cmdv.join(" "), e));
+                h.srv = None;
+                h.aux = None;
+            }
+        }
+    }
+    json!({"devs": devs, "errors": errors, "cases": n})
+}
+
 fn vtime_tick(ns: u64) -> Result<(), String> {
     crate::vtime::tick(ns).map_err(|_| "settle timeout during tick".to_string())
 }
 
-fn extra_worker(_tier: &str, task: &Value, _io: &mut WorkerIo) -> Option<Value> {
+fn extra_worker(tier: &str, task: &Value, io: &mut WorkerIo) -> Option<Value> {
+    if task.get("table").is_some() || task.get("replay").map(|r| r["kind"].as_str() == Some("table")).unwrap_or(false) {
+        thread_local! { static HT: std::cell::RefCell<Option<Harness>> = const { std::cell::RefCell::new(None) }; }
+        return HT.with(|cell| {
+            let mut slot = cell.borrow_mut();
+            if slot.is_none() {
+                *slot = Some(Harness::new(SrvOpts::default()));
+            }
+            let h = slot.as_mut().unwrap();
+            if let Some(r) = task.get("replay") {
+                let i = r["detail"]["i"].as_u64().unwrap_or(0) as usize;
+                return Some(table_family(h, i, i + 1, r["thorough"].as_bool().unwrap_or(false), io));
+            }
+            let t = &task["table"];
+            Some(table_family(h, t[0].as_u64().unwrap_or(0) as usize, t[1].as_u64().unwrap_or(0) as usize, tier == "thorough", io))
+        });
+    }
     if let Some(w) = task.get("write_paths") {
         let mut h = Harness::new(SrvOpts::default());
         let (part, parts) = (w["part"].as_u64().unwrap_or(0) as usize, w["parts"].as_u64().unwrap_or(1) as usize);
@@ -361,12 +507,37 @@ fn extra_worker(_tier: &str, task: &Value, _io: &mut WorkerIo) -> Option<Value> 
     None
 }
 
-fn extra_parent(pool: &Pool, _tier: &str, report: &mut RunReport) -> Value {
+fn extra_parent(pool: &Pool, tier: &str, report: &mut RunReport) -> Value {
     let parts = 16usize;
     let mut tasks = vec![json!({"scenarios": true})];
     for p in 0..parts {
         tasks.push(json!({"write_paths": {"part": p, "parts": parts}}));
     }
+    let thorough = tier == "thorough";
+    let ntable = table_cases(thorough).len();
+    let mut ttasks = Vec::new();
+    let chunk = (ntable / 48).max(16);
+    let mut a = 0;
+    while a < ntable {
+        ttasks.push(json!({"table": [a, (a + chunk).min(ntable)]}));
+        a += chunk;
+    }
+    let mut table_n = 0u64;
+    for o in pool.map(ttasks, 0) {
+        match o {
+            Outcome::Done(v) => {
+                table_n += v["cases"].as_u64().unwrap_or(0);
+                for e in v["errors"].as_array().cloned().unwrap_or_default() {
+                    report.machinery_errors.push(format!("{}", e));
+                }
+                for d in v["devs"].as_array().cloned().unwrap_or_default() {
+                    report.deviations.push(Deviation { property: "C18".into(), sig: d["sig"].as_str().unwrap_or("").to_string(), replay: json!({"kind": "table", "thorough": thorough, "detail": d["detail"]}) });
+                }
+            }
+            Outcome::Died { status, case } => report.machinery_errors.push(format!("table worker died: {} {:?}", status, case)),
+        }
+    }
+    println!("  c18-table: pairs of runs={}", table_n);
     let out = pool.map(tasks, 0);
     let mut write_cases = 0u64;
     for o in out.iter().skip(1) {
@@ -392,6 +563,7 @@ fn extra_parent(pool: &Pool, _tier: &str, report: &mut RunReport) -> Value {
                 report.deviations.push(Deviation { property: "C18".into(), sig: d["sig"].as_str().unwrap_or("").to_string(), replay: json!({"kind": "scenario", "detail": d["detail"]}) });
             }
             json!({"read_paths_and_blocking_scenario": {"read_path_probes": 4 * 11, "blocking_scenario_steps": 6 + 2 * 9},
+                "whole_table": {"pairs_of_runs": table_n, "what": "every command of the dispatch table (plausible arguments on k / k2; those with random, time- or connection-dependent replies, the blocking pops, FLUSHALL and SELECT left out) x 7 states of the key in the selected database x {the other databases empty, databases 0/1/2/14/15 and the next one hold strings under the same names} x {direct, through the forwarding script} on a connection in database 1 (thorough: 1 and 15), mirrored by the same run with database 0 as the target: equal replies, no other database's raw dump changed, and the selected database afterwards equal to database 0 of the mirror run"},
                 "write_paths": {"cases": write_cases, "product": "16 selected databases x 9 write commands x 6 paths (direct, MULTI/EXEC, queued SELECT, EVAL, EVALSHA, EVAL with pcall); all 16 databases seeded and read back"}})
         }
         Outcome::Died { status, .. } => {
